@@ -129,12 +129,12 @@ def work(item):
         ent = byfn[fn]
         if len(ent) < 3 or len(ent[0][0]) < 2:
             continue
-        for _ in range(12 if quick else 60):
+        for run in range(12 if quick else 60):
             kinds, base = rng.choice(ent)
             pos = [i for i, k in enumerate(kinds) if k in ("i", "d")]
             if not pos:
                 break
-            i = rng.choice(pos)
+            i = pos[run] if run < len(pos) else rng.choice(pos)      # every argument position is the varied one at least once
             alts = [a[i] for k2, a in rng.sample(ent, min(len(ent), 6)) if k2 == kinds and a[i] != base[i]][:2]
             if kinds[i] == "d" and isinstance(base[i], float) and base[i] > 0:
                 alts.append(base[i] * rng.choice((0.5, 0.9, 1.1)))
